@@ -290,6 +290,28 @@ def run_case(ex, case):
         ex.fail(f"{case['tag']}: reported {sorted(got)} but the expression {e} contains {sorted(names)}",
                 {"missing": sorted(names - got), "extra": sorted(got - names)})
         return
+    # re-entrancy: parents call children with a shared, possibly pre-populated accumulator;
+    # the answer must not depend on it nor on earlier queries / on being embedded elsewhere
+    other = w.ref("c")
+    acc = set(deps) | {other}
+    r1 = e._get_dependencies(acc)
+    if {str(x) for x in acc} != got | {str(other)}:
+        ex.fail(f"{case['tag']}: _get_dependencies(out) with a pre-populated accumulator leaves {sorted(str(x) for x in acc)}", {"expected": sorted(got | {str(other)})})
+        return
+    acc2 = set()
+    e._get_dependencies(acc2)
+    try:
+        bigger = w.ref("a") + e if not isinstance(e, type(w.r)) else None
+        if bigger is not None:
+            bigger._get_dependencies()
+            (e + w.ref("a"))._get_dependencies()
+    except TypeError:
+        pass
+    again = {str(x) for x in e._get_dependencies()}
+    if {str(x) for x in acc2} != got or again != got:
+        ex.fail(f"{case['tag']}: repeated / embedded queries change the reported dependencies of {e}: first {sorted(got)}, "
+                f"into an empty accumulator {sorted(str(x) for x in acc2)}, afterwards {sorted(again)}")
+        return
     # soundness by non-interference, decided by z3 for all contents
     for L in LOCS:
         if locname(L) & got:
@@ -377,6 +399,17 @@ def slot_trees(P, Q, level):
     out.append(("call:kwarg2", ("call", "other", [], [("x", q), ("y", p)])))
     out.append(("call:only-lit", ("call", "attr", [("lit", 1)], [("kw", p)])))
     out.append(("item:computed-key", ("item_computed", ("leaf", "k"))))
+    out.append(("item:computed-key-expr", ("item_computed", ("bin", "*", ("leaf", "k"), ("lit", 1)))))
+    out.append(("item:computed-key-neg", ("item_computed", ("un", "-", ("un", "-", ("leaf", "k"))))))
+    out.append(("item:computed-key-abs", ("item_computed", ("builtin", "abs", ("leaf", "k")))))
+    out.append(("item:computed-key-in-bin", ("bin", "+", ("item_computed", ("bin", "+", ("leaf", "k"), ("lit", 0))), p)))
+    for wname, wrap in (("abs", lambda t: ("builtin", "abs", t)), ("round2", lambda t: ("builtin", "round2", t, ("lit", 1))),
+                        ("call", lambda t: ("call", "attr", [t], [])), ("neg", lambda t: ("un", "-", t)),
+                        ("divmod0", lambda t: ("index0", ("builtin", "divmod", t, ("lit", 3))))):
+        out.append((f"bin+:first-operand-{wname}", ("bin", "+", wrap(p), q)))
+        out.append((f"bin*:second-operand-{wname}", ("bin", "*", q, wrap(p))))
+        out.append((f"call:arg-{wname}", ("call", "attr", [wrap(p), q], [])))
+        out.append((f"builtin-param-{wname}", ("builtin", "round2", q, wrap(p))))
     out.append(("item:over-builtin", ("index0", ("builtin", "divmod", p, q))))
     out.append(("item:over-builtin-param", ("index0", ("builtin", "divmod", q, p))))
     return out
